@@ -308,3 +308,12 @@ Example toy_agree_values :
   value_to_hash toyH toyF xsd_integer (raw (JStr "-3.3E1")) = Ok (h_prime toyH - 33) /\
   value_to_hash toyH toyF xsd_datetime (raw (JStr "2020-06-01T12:00:00+02:00")) = Ok 1591005600000000000.
 Proof. vm_compute. repeat split. Qed.
+
+(* C10_kind is not vacuous: entry values of every kind *)
+Example toy_kinds :
+  leaf_entry toyF xsd_integer "42" (h_prime toyH) = Ok (XBig 42) /\
+  leaf_entry toyF xsd_boolean "1" (h_prime toyH) = Ok (XBool true) /\
+  leaf_entry toyF xsd_datetime "2020-06-01T10:00:00Z" (h_prime toyH) = Ok (XTime 1591005600 0) /\
+  leaf_entry toyF xsd_double "1.5E0" (h_prime toyH) = Ok (XStr "1.5E0") /\
+  leaf_entry toyF xsd_string "x" (h_prime toyH) = Ok (XStr "x").
+Proof. vm_compute. repeat split. Qed.
